@@ -149,6 +149,8 @@ class Check:
         self.findings = [f for f in load_findings() if f["property"] == pid]
         self.notes = []
         self.gen_info = {}
+        self.failed_sigs = []
+        self.replay_obj = json.loads(Path(replay).read_text()) if replay else None
 
     # ---------------------------------------------------------------- counting
     def count(self, key, nontrivial=True, sample=None, bucket=None):
@@ -258,12 +260,12 @@ class Check:
         self.notes.append("leanchecker ok: " + " ".join(modules))
         return True
 
-    def drive(self, lines, timeout=3000):
-        """Run the Lean driver on request lines; returns reply lines (same length)."""
+    def drive(self, driver, lines, timeout=3000):
+        """Run the Lean driver PgVerif/Drv/<driver>.lean on request lines; returns reply lines (same length)."""
         if not lines:
             return []
         data = "\n".join(lines) + "\n"
-        rc, out, err = sh(["lake", "env", "lean", "--run", "PgVerif/Driver.lean"], cwd=LEAN, timeout=timeout, input=data)
+        rc, out, err = sh(["lake", "env", "lean", "--run", f"PgVerif/Drv/{driver}.lean"], cwd=LEAN, timeout=timeout, input=data)
         replies = out.splitlines()
         if rc != 0 or len(replies) != len(lines):
             raise Infra(f"driver rc={rc} replies={len(replies)}/{len(lines)} err={err[-1500:]} out_tail={out[-300:]}")
@@ -288,6 +290,7 @@ class Check:
             if f["id"] not in [k["id"] for k in self.known_hits]:
                 self.known_hits.append(f)
             return False
+        self.failed_sigs.append(sig)
         self.write_violation({"kind": "failing-input", "signature": sig, "detail": detail})
         return True
 
@@ -389,21 +392,35 @@ def err_class(e):
     }.get(n, "other:" + n)
 
 
-def run_check(pid, tier, seed, replay, body, modules=None, gen=None, level="proof"):
+def run_check(pid, tier, seed, replay, body, modules=None, gen=None, level="proof", drivers=()):
     """Common driver.  body(ck) runs the property-specific part."""
     ck = Check(pid, tier, seed, replay)
+    if ck.replay_obj is not None:
+        ck.seed = seed = int(ck.replay_obj.get("seed", seed))
+        ck.tier = tier = ck.replay_obj.get("tier", tier)
+        ck.rng = random.Random(f"{pid}/{seed}")
     try:
         ok = ck.regenerate(gen)
         mods = modules or [f"PgVerif.Props.{pid}"]
         if ok:
-            ok = ck.lake_build(mods + ["PgVerif.Driver"])
+            ok = ck.lake_build(mods + [f"PgVerif.Drv.{d}" for d in drivers])
         if ok:
             ck.audit()
             if tier == "thorough" and os.environ.get("PGV_SKIP_LEANCHECKER") != "1":
                 ck.leanchecker(mods)
         ck.proof_ok = ok and not ck.broken
         body(ck)
-        return ck.finish(level=level)
+        rc = ck.finish(level=level)
+        if ck.replay_obj is not None:
+            # replay mode: exit 1 iff the recorded failure is still there
+            want = ck.replay_obj
+            if want.get("kind") == "failing-input":
+                again = want.get("signature") in ck.failed_sigs
+            else:
+                again = bool(ck.broken)
+            print(f"[{pid}] replay of {replay}: {'REPRODUCED' if again else 'not reproduced'}", flush=True)
+            return 1 if again else 0
+        return rc
     except Infra as e:
         print(f"[{pid}] INFRASTRUCTURE: {e}", file=sys.stderr, flush=True)
         return 2
